@@ -143,7 +143,7 @@ pub fn case<G: CurveTag>(bytes: &[u8], col: &mut Collector, cmax: usize) -> Resu
 }
 
 /// distinctness, subgroup membership, Pedersen bases and pinned digests (once per run and curve)
-fn static_checks<G: CurveTag>(col: &mut Collector, count: usize) -> Vec<Failure> {
+fn static_checks<G: CurveTag>(col: &mut Collector, count: usize, beyond_u16: bool) -> Vec<Failure> {
     let mut out = vec![];
     let parties = fixtures::GEN_PARTIES;
     let gens = BulletproofGens::<G>::new(count, parties);
@@ -177,12 +177,12 @@ fn static_checks<G: CurveTag>(col: &mut Collector, count: usize) -> Vec<Failure>
         col.nontrivial(fp_of(&(G::CURVE, name)));
     }
     // many parties: the party index is a 32-bit quantity in the derivation
-    let (wide_parties, wide_n) = if count > 64 { (66000usize, 1usize) } else { (300usize, 2usize) };
+    let (wide_parties, wide_n) = if count > 64 || beyond_u16 { (65600usize, 1usize) } else { (300usize, 2usize) };
     let wide = BulletproofGens::<G>::new(wide_n, wide_parties);
     let wg: Vec<G> = wide.G(wide_n, wide_parties).cloned().collect();
     let wh: Vec<G> = wide.H(wide_n, wide_parties).cloned().collect();
     let mut seen_wide: HashSet<Vec<u8>> = HashSet::new();
-    for j in 0..wide_parties {
+    for j in (0..wide_parties).filter(|j| wide_parties <= 300 || *j < 300 || *j >= 65500 || count > 64) {
         col.eval();
         let eg = refgens::gens_uncached::<G>(b'G', j as u32, wide_n);
         let eh = refgens::gens_uncached::<G>(b'H', j as u32, wide_n);
@@ -274,7 +274,8 @@ pub fn run(tier: &str, seed: u64) -> i32 {
     let n = super::scale(tier, 1500, 8000);
     for c in Curve::ALL {
         let mut col = Collector::default();
-        let fails = with_curve!(c, G => static_checks::<G>(&mut col, if tier == "thorough" { 256 } else { 64 }));
+        let beyond = tier == "thorough" || c == Curve::ALL[(seed % 3) as usize];
+        let fails = with_curve!(c, G => static_checks::<G>(&mut col, if tier == "thorough" { 256 } else { 64 }, beyond));
         rep.outcome.stats.merge(col);
         for f in fails {
             rep.outcome.found.push(Found { failure: f, bytes: None, sub: format!("c12/static/{}", c.name()) });
